@@ -119,6 +119,8 @@ def cmd_check(sid, tier, props):
                     except Exception as e:  # noqa
                         detail = {"replay_unreadable": str(e)}
                     break
+            if p in m["checks"]:
+                m.setdefault("history", []).append({"property": p, **{k: m["checks"][p].get(k) for k in ("caught", "tier", "verif_head", "repo_head", "wall_s", "lines")}})
             m["checks"][p] = {"tier": tier, "rc": rc, "caught": rc == 1 and any(l.startswith("VIOLATION") for l in lines),
                               "lines": lines[:8], "first_violation": detail, "wall_s": round(time.time() - t0),
                               "repo_head": sh("git -C /repo rev-parse --short HEAD")[1].strip(),
